@@ -19,9 +19,7 @@ structure St where
   mw : MWorld := ⟨fun _ => 0, ⟨0, 1, [], 0⟩, ⟨2, 3, [], 0⟩⟩
   arrA : Arr := ⟨0, [], false⟩
   arrB : Arr := ⟨1, [], true⟩
-  tcs : Cells := fun _ => 0
-  tblA : Table := ⟨0, 0, 1, [], 0⟩
-  tblB : Table := ⟨1, 2, 3, [], 1000000⟩
+  bw : BWorld := ⟨fun _ => 0, ⟨0, 0, 1, [], 0⟩, ⟨1, 2, 3, [], 1000000⟩⟩
   hs : Array HPos := #[]
   ts : Array TIt := #[]
   vs : Array VIt := #[]
@@ -80,7 +78,7 @@ def kvStr (m : MMap) : String :=
 def mTail (w : MWorld) : String := s!" | A={kvStr w.a} B={kvStr w.b}"
 def aTail (s : St) : String := s!" | A={lst s.arrA.items} B={lst s.arrB.items}"
 def rowsStr (t : Table) : String := "[" ++ " ".intercalate (t.rows.map (fun r => s!"{r.raw}:{r.a}:{r.b}")) ++ "]"
-def tbTail (s : St) : String := s!" | A={rowsStr s.tblA} B={rowsStr s.tblB}"
+def tbTail (s : St) : String := s!" | A={rowsStr s.bw.a} B={rowsStr s.bw.b}"
 
 def bad : String := "E:invalid_argument"
 
@@ -278,92 +276,57 @@ def aStep (s : St) : List String → St × String
       | none => aOut s bad
   | _ => (s, "bad-op")
 
-/-! ### table -/
+/-! ### table (row references in `rr`, selections and row pointers in `sl`, hash bounds in `mb`) -/
 
-def tbl (s : St) (o : Bool) : Table := if o then s.tblB else s.tblA
-def setTbl (s : St) (o : Bool) (cs : Cells) (t : Table) : St :=
-  if o then { s with tcs := cs, tblB := t } else { s with tcs := cs, tblA := t }
-def bOut (s : St) (r : String) : St × String := (s, r ++ tbTail s)
 def refStr (r : RowRef) : String := s!"r{r.raw}"
 
+/-- how the answer of a table entry point is printed; `quiet`: only `ok` (the row a bounds index denotes depends on the order
+    inside the real multi-hash group, which is not modelled) -/
+def bres (quiet : Bool) : Option BRes → String
+  | none => bad
+  | some .unit => "ok"
+  | some (.ref r) => if quiet then "ok" else s!"ok {refStr r}"
+  | some (.refFlag r b) => s!"ok {b01 b} {refStr r}"
+  | some (.sel x) => s!"ok {lst x.raws}"
+  | some (.bounds x) => s!"ok {lst (sorted x.raws)}"
+  | some (.num n) => s!"ok {n}"
+
+/-- runs one entry point of the model world; a returned handle is stored in slot `slot` of its kind -/
+def bRun (s : St) (op : BOp) (slot : Option Nat) (quiet : Bool := false) : St × String :=
+  let r := s.bw.step op
+  let s1 := { s with bw := r.1 }
+  let s2 := match slot, r.2 with
+    | some d, some (.ref x) => { s1 with rr := setAt s1.rr d x }
+    | some d, some (.refFlag x _) => { s1 with rr := setAt s1.rr d x }
+    | some d, some (.sel x) => { s1 with sl := setAt s1.sl d x }
+    | some d, some (.bounds x) => { s1 with mb := setAt s1.mb d x }
+    | _, _ => s1
+  (s2, bres quiet r.2 ++ tbTail s2)
+
 def bStep (s : St) : List String → St × String
-  | ["at", o, i, d] =>
-      match (tbl s (ob o)).at_ s.tcs (nat! i) with
-      | some r => bOut { s with rr := setAt s.rr (nat! d) r } s!"ok {refStr r}"
-      | none => bOut s bad
-  | ["get", r] => bOut s (match (s.rr[nat! r]!).get s.tcs with | some _ => s!"ok {refStr (s.rr[nat! r]!)}" | none => bad)
-  | ["add", o, a, b, d] =>
-      let x := (tbl s (ob o)).tryAdd s.tcs (nat! a) (nat! b)
-      bOut { setTbl s (ob o) x.1 x.2.1 with rr := setAt s.rr (nat! d) x.2.2.1 } s!"ok {b01 x.2.2.2} {refStr x.2.2.1}"
-  | ["insrow", o, i, a, b, d] =>
-      match (tbl s (ob o)).tryInsert s.tcs (nat! i) (nat! a) (nat! b) with
-      | some x => bOut { setTbl s (ob o) x.1 x.2.1 with rr := setAt s.rr (nat! d) x.2.2.1 } s!"ok {b01 x.2.2.2} {refStr x.2.2.1}"
-      | none => bOut s bad
-  | ["updrow", o, i, a, b, d] =>
-      match (tbl s (ob o)).tryUpdateRow s.tcs (nat! i) (nat! a) (nat! b) with
-      | some x => bOut { setTbl s (ob o) x.1 x.2.1 with rr := setAt s.rr (nat! d) x.2.2.1 } s!"ok {b01 x.2.2.2} {refStr x.2.2.1}"
-      | none => bOut s bad
-  | ["updb", o, r, b] =>
-      match (tbl s (ob o)).updateB s.tcs (s.rr[nat! r]!) (nat! b) with
-      | some x => bOut (setTbl s (ob o) x.1 x.2) "ok"
-      | none => bOut s bad
-  | ["rmref", o, r] =>
-      match (tbl s (ob o)).removeRef s.tcs (s.rr[nat! r]!) with
-      | some x => bOut (setTbl s (ob o) x.1 x.2) "ok"
-      | none => bOut s bad
-  | ["rmnum", o, i] =>
-      match (tbl s (ob o)).removeNum s.tcs (nat! i) with
-      | some x => bOut (setTbl s (ob o) x.1 x.2) "ok"
-      | none => bOut s bad
-  | ["mkmut", o, r, d] =>
-      match (tbl s (ob o)).makeMutable s.tcs (s.rr[nat! r]!) with
-      | some x => bOut { s with rr := setAt s.rr (nat! d) x } s!"ok {refStr x}"
-      | none => bOut s bad
-  | ["newrow", r] => bOut s (match Table.newRowFrom s.tcs (s.rr[nat! r]!) with | some _ => "ok" | none => bad)
-  | ["clear", o] =>
-      let x := (tbl s (ob o)).clear s.tcs
-      bOut (setTbl s (ob o) x.1 x.2) "ok"
-  | ["rmif", o, m, r] =>
-      let x := (tbl s (ob o)).removeIf s.tcs (nat! m) (nat! r)
-      bOut (setTbl s (ob o) x.1 x.2.1) s!"ok {x.2.2}"
-  | "rmrefs" :: o :: keep :: rs =>
-      match (tbl s (ob o)).removeRefs s.tcs (rs.map (fun r => s.rr[nat! r]!)) (keep == "1") with
-      | some x => bOut (setTbl s (ob o) x.1 x.2) "ok"
-      | none => bOut s bad
-  | ["select", o, m, r, d] =>
-      let x := (tbl s (ob o)).select s.tcs (nat! m) (nat! r)
-      bOut { s with sl := setAt s.sl (nat! d) x } s!"ok {lst x.raws}"
-  | ["findu", o, v, d] =>
-      let x := (tbl s (ob o)).findUnique s.tcs (nat! v)
-      bOut { s with sl := setAt s.sl (nat! d) x } s!"ok {lst x.raws}"
-  | ["selat", sl, i, d] =>
-      match (s.sl[nat! sl]!).at_ (nat! i) with
-      | some r => bOut { s with rr := setAt s.rr (nat! d) r } s!"ok {refStr r}"
-      | none => bOut s bad
-  | ["selset", sl, i, r] =>
-      match (s.sl[nat! sl]!).set s.tcs (nat! i) (s.rr[nat! r]!) with
-      | some x => bOut { s with sl := setAt s.sl (nat! sl) x } s!"ok {lst x.raws}"
-      | none => bOut s bad
-  | ["seladd", sl, r] =>
-      match (s.sl[nat! sl]!).add s.tcs (s.rr[nat! r]!) with
-      | some x => bOut { s with sl := setAt s.sl (nat! sl) x } s!"ok {lst x.raws}"
-      | none => bOut s bad
-  | ["selins", sl, i, r] =>
-      match (s.sl[nat! sl]!).insert s.tcs (nat! i) (s.rr[nat! r]!) with
-      | some x => bOut { s with sl := setAt s.sl (nat! sl) x } s!"ok {lst x.raws}"
-      | none => bOut s bad
-  | ["selrm", sl, i, n] =>
-      match (s.sl[nat! sl]!).remove (nat! i) (nat! n) with
-      | some x => bOut { s with sl := setAt s.sl (nat! sl) x } s!"ok {lst x.raws}"
-      | none => bOut s bad
-  | ["selread", sl] => bOut s (match (s.sl[nat! sl]!).readAll s.tcs with | some _ => "ok" | none => bad)
-  | ["findm", o, v, d] =>
-      let x := (tbl s (ob o)).findMulti s.tcs (nat! v)
-      bOut { s with mb := setAt s.mb (nat! d) x } s!"ok {lst (sorted x.raws)}"
-  | ["mbat", m, i, d] =>
-      match (s.mb[nat! m]!).at_ s.tcs (nat! i) with
-      | some r => bOut { s with rr := setAt s.rr (nat! d) r } "ok"
-      | none => bOut s bad
+  | ["at", o, i, d] => bRun s (.at_ (ob o) (nat! i)) (some (nat! d))
+  | ["get", r] => bRun s (.get (s.rr[nat! r]!)) none
+  | ["add", o, a, b, d] => bRun s (.add (ob o) (nat! a) (nat! b)) (some (nat! d))
+  | ["insrow", o, i, a, b, d] => bRun s (.insert (ob o) (nat! i) (nat! a) (nat! b)) (some (nat! d))
+  | ["updrow", o, i, a, b, d] => bRun s (.updRow (ob o) (nat! i) (nat! a) (nat! b)) (some (nat! d))
+  | ["updb", o, r, b] => bRun s (.updB (ob o) (s.rr[nat! r]!) (nat! b)) none
+  | ["rmref", o, r] => bRun s (.rmRef (ob o) (s.rr[nat! r]!)) none
+  | ["rmnum", o, i] => bRun s (.rmNum (ob o) (nat! i)) none
+  | ["mkmut", o, r, d] => bRun s (.mkMut (ob o) (s.rr[nat! r]!)) (some (nat! d))
+  | ["newrow", r] => bRun s (.newRow (s.rr[nat! r]!)) none
+  | ["clear", o] => bRun s (.clear (ob o)) none
+  | ["rmif", o, m, r] => bRun s (.rmIf (ob o) (nat! m) (nat! r)) none
+  | "rmrefs" :: o :: keep :: rs => bRun s (.rmRefs (ob o) (rs.map (fun r => s.rr[nat! r]!)) (keep == "1")) none
+  | ["select", o, m, r, d] => bRun s (.select (ob o) (nat! m) (nat! r)) (some (nat! d))
+  | ["findu", o, v, d] => bRun s (.findU (ob o) (nat! v)) (some (nat! d))
+  | ["selat", sl, i, d] => bRun s (.selAt (s.sl[nat! sl]!) (nat! i)) (some (nat! d))
+  | ["selset", sl, i, r] => bRun s (.selSet (s.sl[nat! sl]!) (nat! i) (s.rr[nat! r]!)) (some (nat! sl))
+  | ["seladd", sl, r] => bRun s (.selAdd (s.sl[nat! sl]!) (s.rr[nat! r]!)) (some (nat! sl))
+  | ["selins", sl, i, r] => bRun s (.selIns (s.sl[nat! sl]!) (nat! i) (s.rr[nat! r]!)) (some (nat! sl))
+  | ["selrm", sl, i, n] => bRun s (.selRm (s.sl[nat! sl]!) (nat! i) (nat! n)) (some (nat! sl))
+  | ["selread", sl] => bRun s (.selRead (s.sl[nat! sl]!)) none
+  | ["findm", o, v, d] => bRun s (.findM (ob o) (nat! v)) (some (nat! d))
+  | ["mbat", m, i, d] => bRun s (.mbAt (s.mb[nat! m]!) (nat! i)) (some (nat! d)) true
   | _ => (s, "bad-op")
 
 def step (s : St) (toks : List String) : St × String :=
